@@ -705,14 +705,23 @@ func (e *Env) call(n *ast.CallExpr) Val {
 		case "isNaN":
 			e.nargs(n, 1)
 			v := t.materialize(e.eval(n.Args[0]), types.Typ[types.Float64])
+			if t.mode.isReal() {
+				return scalar(bt, "false")
+			}
 			return scalar(bt, sx("fp.isNaN", v.S))
 		case "isInf":
 			e.nargs(n, 1)
 			v := t.materialize(e.eval(n.Args[0]), types.Typ[types.Float64])
+			if t.mode.isReal() {
+				return scalar(bt, "false")
+			}
 			return scalar(bt, sx("fp.isInfinite", v.S))
 		case "fabs":
 			e.nargs(n, 1)
 			v := t.materialize(e.eval(n.Args[0]), types.Typ[types.Float64])
+			if t.mode.isReal() {
+				return scalar(v.T, ite(sx(">=", v.S, "0.0"), v.S, sx("-", v.S)))
+			}
 			return scalar(v.T, sx("fp.abs", v.S))
 		case "f64bits":
 			e.nargs(n, 1)
@@ -722,6 +731,13 @@ func (e *Env) call(n *ast.CallExpr) Val {
 			e.nargs(n, 1)
 			v := t.materialize(e.eval(n.Args[0]), types.Typ[types.Uint64])
 			return t.float64frombits(v)
+		case "floor":
+			e.nargs(n, 1)
+			v := t.materialize(e.eval(n.Args[0]), types.Typ[types.Float64])
+			if t.mode.isReal() {
+				return scalar(v.T, sx("to_real", sx("to_int", v.S)))
+			}
+			return scalar(v.T, sx("fp.roundToIntegral", "RTN", v.S))
 		case "feq":
 			// structural float equality (NaN == NaN, +0 != -0): SMT "="
 			e.nargs(n, 2)
@@ -769,7 +785,7 @@ func (e *Env) call(n *ast.CallExpr) Val {
 		case "clz64", "ctz64":
 			e.nargs(n, 1)
 			v := t.materialize(e.eval(n.Args[0]), types.Typ[types.Uint64])
-			if v.K != VScalar || t.mode != ModeBV {
+			if v.K != VScalar || !t.mode.isBV() {
 				e.fail("clz64/ctz64 need a bit-vector uint64")
 			}
 			// binary-search encoding (6 steps) of count-leading / count-trailing zeros
@@ -874,7 +890,7 @@ func (e *Env) ghostat(n *ast.CallExpr) Val {
 	}
 	if o.K == VScalar && o.T != nil {
 		// an integer-valued ghost (stream id) may be used as the object
-		if _, _, isInt := intInfo(o.T); isInt && t.mode == ModeBV {
+		if _, _, isInt := intInfo(o.T); isInt && t.mode.isBV() {
 			o = scalar(nil, sx("bv2nat", o.S))
 		}
 	}
@@ -904,6 +920,11 @@ func (e *Env) uf(n *ast.CallExpr) Val {
 	name, _ := strconv.Unquote(lit.Value)
 	rtName := exprString(n.Args[1])
 	rt, ok := convNames[rtName]
+	if !ok {
+		if nt := e.namedType(n.Args[1]); nt != nil && t.mode.scalarSort(nt) != "" {
+			rt, ok = nt, true
+		}
+	}
 	if !ok {
 		e.fail("uf result type %s unknown", rtName)
 	}
